@@ -778,3 +778,67 @@ Proof.
   destruct (d_put_loop (S (length name)) name (TrNode l ch)) as [[k t']|] eqn:E; [|exact Hwf].
   cbn [snd]. eapply d_put_loop_wf; eauto.
 Qed.
+
+(* ---- keys are not much longer than names (crude: at most 128 bytes per name byte) ---- *)
+Lemma uvarint_enc_fuel_le : forall f n, (length (uvarint_enc_fuel f n) <= S f)%nat.
+Proof. induction f as [|f IH]; intros n; cbn; [lia|]. destruct (n <? 128); cbn; [lia|]. specialize (IH (n / 128)). lia. Qed.
+
+Lemma uvarint_enc_le64 : forall n, n < 2 ^ 64 -> (length (uvarint_enc n) <= 64)%nat.
+Proof.
+  intros n H. unfold uvarint_enc. pose proof (uvarint_enc_fuel_le (N.to_nat (N.log2 n)) n).
+  assert (N.log2 n < 64). { destruct (N.eq_dec n 0) as [->|Hz]; [cbn; lia|]. apply N.log2_lt_pow2; lia. }
+  lia.
+Qed.
+
+Lemma pair_enc_le : forall a b, a < two63 -> b < two63 -> Nlen (pair_enc a b) <= 128.
+Proof.
+  intros a b Ha Hb. unfold pair_enc, Nlen. rewrite app_length.
+  pose proof (uvarint_enc_le64 a (two63_lt_64 a Ha)). pose proof (uvarint_enc_le64 b (two63_lt_64 b Hb)). lia.
+Qed.
+
+Lemma d_put_loop_len : forall fuel key l ch out t',
+  d_put_loop fuel key (TrNode l ch) = Some (out, t') ->
+  tr_weight (TrNode l ch) + Nlen key < two63 -> Nlen out <= 128 * Nlen key.
+Proof.
+  induction fuel as [|f IH]; intros key l ch out t' H Hb; [discriminate|].
+  destruct key as [|k0 key]; cbn [d_put_loop] in H.
+  { injection H as <- <-. cbn. lia. }
+  set (K := k0 :: key) in *.
+  assert (HK : 1 <= Nlen K) by (unfold Nlen, K; cbn [length]; lia).
+  rewrite tr_weight_eq in Hb. pose proof (ch_weight_len ch) as Hcl.
+  destruct (lead_index k0 ch) as [idx|] eqn:Hl.
+  2:{ injection H as <- <-. pose proof (pair_enc_le (Nlen ch) (Nlen K)). lia. }
+  destruct (lead_index_some _ _ _ Hl) as [c [Hn Hfb]]. rewrite Hn in H.
+  destruct c as [lk lch].
+  pose proof (first_byte_lcp k0 key lk lch Hfb) as Hp1. fold K in Hp1.
+  pose proof (lcp_le_l K lk) as HpK. pose proof (lcp_le_r K lk) as Hplk.
+  pose proof (ch_weight_nth _ _ _ Hn) as Hwc. rewrite tr_weight_eq in Hwc.
+  assert (Hidx : (idx < length ch)%nat) by (apply nth_error_Some; congruence).
+  set (p := lcp K lk) in *.
+  assert (Hskl : Nlen (skipn p K) = Nlen K - N.of_nat p) by (unfold Nlen; rewrite skipn_length; lia).
+  destruct (Nat.eqb_spec p (length lk)) as [Hpl|Hpl].
+  - destruct (Nat.eqb_spec p (length K)) as [HpK2|HpK2].
+    + injection H as <- <-. pose proof (pair_enc_le (N.of_nat idx) (Nlen lk)). unfold Nlen in *. lia.
+    + destruct (d_put_loop f (skipn p K) (TrNode lk lch)) as [[out' c']|] eqn:Hrec; [|discriminate].
+      injection H as <- <-.
+      assert (Ho : Nlen out' <= 128 * Nlen (skipn p K)).
+      { eapply IH; [exact Hrec|]. rewrite tr_weight_eq. lia. }
+      pose proof (pair_enc_le (N.of_nat idx) (Nlen lk)).
+      unfold Nlen in *. rewrite app_length. lia.
+  - destruct (d_put_loop f (skipn p K) (TrNode (firstn p lk) [TrNode (skipn p lk) lch])) as [[out' n']|] eqn:Hrec; [|discriminate].
+    injection H as <- <-.
+    assert (Hla : Nlen (firstn p lk) = N.of_nat p) by (unfold Nlen; rewrite firstn_length; lia).
+    assert (Hlb : Nlen (skipn p lk) = Nlen lk - N.of_nat p) by (unfold Nlen; rewrite skipn_length; lia).
+    assert (Ho : Nlen out' <= 128 * Nlen (skipn p K)).
+    { eapply IH; [exact Hrec|]. rewrite !tr_weight_eq. cbn [ch_weight fold_right]. rewrite tr_weight_eq. unfold Nlen in *. lia. }
+    pose proof (pair_enc_le (N.of_nat idx) (N.of_nat p)).
+    unfold Nlen in *. rewrite app_length. lia.
+Qed.
+
+Lemma d_put_key_len : forall name t k t', tr_weight t + Nlen name < two63 -> d_put name t = (k, t') -> Nlen k <= 128 * Nlen name.
+Proof.
+  intros name [l ch] k t' Hb Hp. unfold d_put, d_put_opt in Hp.
+  destruct (d_put_loop (S (length name)) name (TrNode l ch)) as [[k1 t1]|] eqn:E.
+  - injection Hp as -> ->. eapply d_put_loop_len; eauto.
+  - injection Hp as <- <-. cbn. lia.
+Qed.
